@@ -170,7 +170,16 @@ fn run_v<V: VringT<GM<()>> + Clone + Send + Sync + 'static>(sim: &Sim, _cfg: &Ru
                 10 => Op::SetCall(r),
                 11 => Op::SetKick(r),
                 12 => Op::ReplaceTable,
-                13 => Op::BadIndex(t.draw(8) as u8, nrings + if t.chance(1, 3) { 254 + t.draw(700) } else { t.draw(254) } as usize),
+                13 => {
+                    let kind = t.draw(8) as u8;
+                    // beyond 255: half of them alias an existing ring in their low byte
+                    let idx = match t.draw(6) {
+                        0 => 256 * t.range(1, 3) as usize + t.draw(nrings as u64) as usize,
+                        1 => nrings + 254 + t.draw(700) as usize,
+                        _ => nrings + t.draw(254) as usize,
+                    };
+                    Op::BadIndex(kind, idx)
+                }
                 14 => Op::BackendReq,
                 15 => {
                     let size = 1 + t.draw(64) as u32;
